@@ -245,30 +245,36 @@ def _convert_call(node: ast.Call) -> libsbml.ASTNode:
 
 
 def _convert_compare(node: ast.Compare) -> libsbml.ASTNode:
-    # FIXME: handle cases such as x < y < z
+    # x < y < z is (x < y) and (y < z)
+    operands = [node.left, *node.comparators]
+    links = []
+    for cmp_op, lhs, rhs in zip(node.ops, operands[:-1], operands[1:], strict=True):
+        match cmp_op:
+            case ast.Eq():
+                op = libsbml.AST_RELATIONAL_EQ
+            case ast.NotEq():
+                op = libsbml.AST_RELATIONAL_NEQ
+            case ast.Lt():
+                op = libsbml.AST_RELATIONAL_LT
+            case ast.LtE():
+                op = libsbml.AST_RELATIONAL_LEQ
+            case ast.Gt():
+                op = libsbml.AST_RELATIONAL_GT
+            case ast.GtE():
+                op = libsbml.AST_RELATIONAL_GEQ
+            case _:
+                raise NotImplementedError(type(cmp_op))
 
-    left = _convert_node(node.left)
-    right = _convert_node(node.comparators[0])
+        link = libsbml.ASTNode(op)
+        link.addChild(_convert_node(lhs))
+        link.addChild(_convert_node(rhs))
+        links.append(link)
 
-    match node.ops[0]:
-        case ast.Eq():
-            op = libsbml.AST_RELATIONAL_EQ
-        case ast.NotEq():
-            op = libsbml.AST_RELATIONAL_NEQ
-        case ast.Lt():
-            op = libsbml.AST_RELATIONAL_LT
-        case ast.LtE():
-            op = libsbml.AST_RELATIONAL_LEQ
-        case ast.Gt():
-            op = libsbml.AST_RELATIONAL_GT
-        case ast.GtE():
-            op = libsbml.AST_RELATIONAL_GEQ
-        case _:
-            raise NotImplementedError(type(node.ops[0]))
-
-    sbml_node = libsbml.ASTNode(op)
-    sbml_node.addChild(left)
-    sbml_node.addChild(right)
+    if len(links) == 1:
+        return links[0]
+    sbml_node = libsbml.ASTNode(libsbml.AST_LOGICAL_AND)
+    for link in links:
+        sbml_node.addChild(link)
     return sbml_node
 
 
